@@ -321,92 +321,138 @@ fn c08_table_add_own_id() {
     table_add(2, 2, false, 160);
 }
 
+/// One pass over the table: standing of every live node by identity key, with the shape
+/// invariant (placement, no own id, no router address, no duplicate) asserted on the way.
+fn survey(t: &RoutingTable, router: Option<SocketAddr>) -> [Option<NodeStatus>; 64] {
+    let nb = t.buckets.len();
+    let mut by_key: [Option<NodeStatus>; 64] = [None; 64];
+    let mut i = 0;
+    while i < nb {
+        for node in t.buckets[i].iter() {
+            let s = node.status();
+            if s != NodeStatus::Bad {
+                let lz = leading_bit_count(t.node_id, node.id());
+                assert!(lz != MAX_BUCKETS, "C08: the table lists the node's own id");
+                let want = if lz < nb { lz } else { nb - 1 };
+                assert!(want == i, "C08: a node sits in a bucket that does not match its shared prefix");
+                if let Some(r) = router {
+                    assert!(node.addr() != r, "C08: the table lists a router address");
+                }
+                let key = node.id().as_ref()[19] as usize;
+                assert!(key < 64 && by_key[key].is_none(), "C08: an (id, address) pair appears twice in the table");
+                by_key[key] = Some(s);
+            }
+        }
+        i += 1;
+    }
+    by_key
+}
+
+
 // ---------------------------------------------------------------------------------------------
 // C12: `add_nodes(responder, names)` - nodes merely named in a response are admitted at most as
 // questionable; the local id and router addresses are never admitted whoever names them.
-// name kinds: 0 = fresh identity, 1 = the local id, 2 = a router's address (fresh id),
-//             3 = identity already stored in bucket 0 slot 0 (arbitrary standing), 4 = same as name 0,
-//             5 = a fresh id on the responder's own address
+//
+// Table: 2 buckets, local id 0..0. Bucket 0 (not splittable) holds identity E in an arbitrary state
+// in its last slot and 7 free slots; bucket 1 is empty. To keep the formula small each instance
+// causes at most one insertion: the responder is E itself (updated in place) unless the name under
+// test is E. name kinds: 0 = fresh identity, 1 = the local id, 2 = a router's address (fresh id),
+// 3 = E named by somebody else, 5 = a fresh id on the responder's own address.
 // ---------------------------------------------------------------------------------------------
 
-fn named(kind: u8, which: u8, router: SocketAddr) -> NodeHandle {
-    match kind {
-        1 => NodeHandle::new(NodeId::from([0u8; 20]), concrete_addr_v4(50 + which)),
-        2 => NodeHandle::new(crate::verif::id_with_prefix(0, 52 + which), router),
-        3 => NodeHandle::new(crate::verif::id_with_prefix(slot_ideal(2, 0, 0), slot_key(0, 0)), concrete_addr_v4(slot_key(0, 0))),
-        5 => NodeHandle::new(crate::verif::id_with_prefix(1, 55), concrete_addr_v4(57)),
-        _ => NodeHandle::new(crate::verif::id_with_prefix(1, 54), concrete_addr_v4(54)),
-    }
-}
+const E_KEY: u8 = 0; // identity key byte = E_KEY + 1
 
-fn add_nodes_step(kind_a: u8, kind_b: u8) {
+fn add_nodes_step(kind: u8) {
     clock::start_fixed();
     let nb = 2;
-    let mut t = symbolic_table_n(nb, 2);
+    let mut t = symbolic_table_n(nb, 0);
+    let e_id = crate::verif::id_with_prefix(0, E_KEY);
+    let e_addr = concrete_addr_v4(E_KEY);
+    let existing = symbolic_slot_with(e_id, e_addr, true);
+    let st0 = existing.status();
+    let pre_existing = if st0 == NodeStatus::Bad { None } else { Some(st0) };
+    crate::bucket::verif::set_slot(&mut t.buckets[0], 7, existing);
     let router = SocketAddr::from((std::net::Ipv4Addr::new(192, 0, 2, 1), 6881));
-    t.routers.insert(router);
-    check_shape(&t, Some(router));
-    let (_, pre_existing) = census(&t, slot_key(0, 0) + 1);
-    // the responder: a fresh identity that answered us
-    let responder = Node::as_good(crate::verif::id_with_prefix(0, 57), concrete_addr_v4(57));
-    let names = [named(kind_a, 0, router), named(kind_b, 1, router)];
+    if kind == 2 {
+        // only the instance that names a router pays for the hash set (std HashSet, F4/F17)
+        t.routers.insert(router);
+    }
+    let (responder, responder_key) = if kind == 3 {
+        (Node::as_good(crate::verif::id_with_prefix(0, 57), concrete_addr_v4(57)), 58usize)
+    } else {
+        (Node::as_good(e_id, e_addr), E_KEY as usize + 1)
+    };
+    let name = match kind {
+        1 => NodeHandle::new(NodeId::from([0u8; 20]), concrete_addr_v4(50)),
+        2 => NodeHandle::new(crate::verif::id_with_prefix(0, 52), router),
+        3 => NodeHandle::new(e_id, e_addr),
+        5 => NodeHandle::new(crate::verif::id_with_prefix(0, 55), e_addr),
+        _ => NodeHandle::new(crate::verif::id_with_prefix(0, 54), concrete_addr_v4(54)),
+    };
+    let names = [name];
     t.add_nodes(responder, &names);
-    check_shape(&t, Some(router));
-    // fresh names (keys 55) are at most questionable
-    let (_, fresh) = census(&t, 55);
-    if let Some(s) = fresh {
-        assert!(s == NodeStatus::Questionable, "C12: a node merely named in a response is reported good");
-    }
-    // a second id advertised on the responder's own address (key 56) is hearsay like any other
-    let (_, alias) = census(&t, 56);
-    if let Some(s) = alias {
-        assert!(s == NodeStatus::Questionable, "C12: a node merely named in a response is reported good");
-    }
-    // router-addressed names (keys 53, 54) never appear: check_shape; own id: check_shape
-    let (_, r1) = census(&t, 53);
-    let (_, r2) = census(&t, 54);
-    assert!(r1.is_none() && r2.is_none(), "C12: a router address was admitted by hearsay");
-    // an already stored identity is not upgraded by hearsay
-    let (_, post_existing) = census(&t, slot_key(0, 0) + 1);
-    if kind_a == 3 || kind_b == 3 {
-        match (pre_existing, post_existing) {
+    let after = survey(&t, if kind == 2 { Some(router) } else { None });
+    assert!(after[responder_key] == Some(NodeStatus::Good), "C12: the responder itself is not reported good");
+    match kind {
+        0 => assert!(after[55] == Some(NodeStatus::Questionable), "C12: a node merely named in a response is not admitted as questionable"),
+        5 => assert!(after[56] == Some(NodeStatus::Questionable), "C12: a second id named on the responder's address is not admitted as questionable"),
+        2 => assert!(after[53].is_none(), "C12: a router address was admitted by hearsay"),
+        3 => match (pre_existing, after[E_KEY as usize + 1]) {
             (Some(a), Some(b)) => assert!(a == b, "C12: hearsay changed the standing of a stored node"),
             (None, Some(b)) => assert!(b == NodeStatus::Questionable, "C12: a dropped node named again is reported good"),
-            _ => {}
-        }
+            (Some(_), None) => assert!(false, "C12: hearsay removed a stored node"),
+            (None, None) => {}
+        },
+        _ => {} // own id: survey asserts it is nowhere
     }
-    kani::cover!(fresh.is_some(), "a named node was admitted");
+    // nothing else appeared
+    let mut live = 0;
+    let mut k = 0;
+    while k < 64 {
+        if after[k].is_some() {
+            live += 1;
+        }
+        k += 1;
+    }
+    assert!(live <= 2, "C12: more nodes were admitted than were named");
+    kani::cover!(pre_existing == Some(NodeStatus::Questionable), "stored node questionable before");
     kani::cover!(true, "end of harness reached");
 }
 
 #[kani::proof]
-#[kani::unwind(21)]
+#[kani::unwind(66)]
 #[kani::stub(std::hash::RandomState::new, crate::verif::stub_random_state_new)]
-fn c12_add_nodes_fresh_and_own_id() {
-    add_nodes_step(0, 1);
+fn c12_add_nodes_fresh_name() {
+    add_nodes_step(0);
 }
 
 #[kani::proof]
-#[kani::unwind(21)]
+#[kani::unwind(66)]
 #[kani::stub(std::hash::RandomState::new, crate::verif::stub_random_state_new)]
-fn c12_add_nodes_router_and_existing() {
-    add_nodes_step(2, 3);
+fn c12_add_nodes_own_id() {
+    add_nodes_step(1);
 }
 
 #[kani::proof]
-#[kani::unwind(21)]
+#[kani::unwind(66)]
 #[kani::stub(std::hash::RandomState::new, crate::verif::stub_random_state_new)]
-fn c12_add_nodes_duplicate_names() {
-    add_nodes_step(0, 4);
+fn c12_add_nodes_router_address() {
+    add_nodes_step(2);
 }
 
 #[kani::proof]
-#[kani::unwind(21)]
+#[kani::unwind(66)]
+#[kani::stub(std::hash::RandomState::new, crate::verif::stub_random_state_new)]
+fn c12_add_nodes_existing_by_hearsay() {
+    add_nodes_step(3);
+}
+
+#[kani::proof]
+#[kani::unwind(66)]
 #[kani::stub(std::hash::RandomState::new, crate::verif::stub_random_state_new)]
 fn c12_add_nodes_alias_of_responder() {
-    add_nodes_step(5, 1);
+    add_nodes_step(5);
 }
-
 
 // ---------------------------------------------------------------------------------------------
 // C09: how the enumeration is set up over a table (no `next()` walk, F23): it starts at the
